@@ -15,16 +15,16 @@ from vlib import Check, run_tlc, run_cmd, build_harness, Graph, validate_trace, 
 PID = "C11"
 
 
-def _cfg(name, keys, maxsize, bulk, dump, fixed=True):
+def _cfg(name, keys, maxsize, bulk, dump, fixed=True, core=False):
     d = vlib.ensure_dir(os.path.join(WORK, "cfg-c11"))
     p = os.path.join(d, name + ".cfg")
     body = ["SPECIFICATION Spec", "CONSTANTS", "  Keys = {%s}" % ", ".join(map(str, keys)),
             "  MaxSize = %d" % maxsize, "  SiftUpOnRemove = %s" % ("TRUE" if fixed else "FALSE"),
-            "  MaxBulk = %d" % bulk, "VIEW View"]
+            "  MaxBulk = %d" % bulk, "  Core = %s" % ("TRUE" if core else "FALSE"), "VIEW View"]
     if dump:
         body.append("ACTION_CONSTRAINT Dump")
     else:
-        body += ["INVARIANTS HeapOrder TopIsMin DrainSorted SortAgrees", "PROPERTY StepRefinesContract"]
+        body += ["INVARIANTS HeapOrder TopIsMin DrainSorted" + ("" if core else " SortAgrees"), "PROPERTY StepRefinesContract"]
     open(p, "w").write("\n".join(body) + "\n")
     return p
 
@@ -69,10 +69,12 @@ def run(tier):
     if tier == "quick":
         mcs = [("mc-6x3", (1, 2, 3), 6, 3)]
         dumps = [("dump-6x3", (1, 2, 3), 6, 3)]
-        rec = [("less", 15000), ("greater", 8000), ("table", 8000)]
+        deep = [("deep-16x2", (1, 2), 16, 2)]
+        rec = [("less", 15000), ("greater", 10000), ("table", 8000)]
     else:
         mcs = [("mc-7x3", (1, 2, 3), 7, 3), ("mc-6x4", (1, 2, 3, 4), 6, 3)]
         dumps = [("dump-7x3", (1, 2, 3), 7, 2), ("dump-6x4", (1, 2, 3, 4), 6, 2)]
+        deep = [("deep-16x2", (1, 2), 16, 2), ("deep-12x3", (1, 2, 3), 12, 2)]
         rec = [("less", 60000), ("greater", 60000), ("table", 60000)] * 3
     # 1. exhaustive model check of the implementation-shaped spec against the contract
     for name, keys, n, bulk in mcs:
@@ -101,6 +103,23 @@ def run(tier):
             raise FrameworkError("vacuity gate: actions never taken in the model: %s" % sorted(need - set(acts)))
         ck.set("edges_per_action_" + name, acts)
         _replay_graph(ck, binary, gpath, name)
+    # 2b. deep heaps (four and more levels), core alphabet: every transition after its shortest path, plus walks
+    for name, keys, n, bulk in deep:
+        res = run_tlc("ds/BinaryHeap", cfg=_cfg("mc-" + name, keys, n, bulk, False, core=True), workers=vlib.NCPU, timeout=3000)
+        ck.tlc(res, "mc-" + name)
+        edges = []
+        res = run_tlc("ds/BinaryHeap", cfg=_cfg(name, keys, n, bulk, True, core=True), workers=1, timeout=3000,
+                      json_sink=edges.append)
+        if res.error:
+            raise FrameworkError(res.error)
+        g = Graph(edges)
+        g.check_connected()
+        gpath = g.write(os.path.join(WORK, "c11-%s.ndjson" % name))
+        depth_ok = sum(1 for e in g.edges if e["a"] == "Remove" and e["exp"]["n"] >= 11)
+        if depth_ok == 0:
+            raise FrameworkError("vacuity gate: no removal from a heap of four levels in " + name)
+        ck.set("removals_from_four_level_heaps_" + name, depth_ok)
+        _replay_graph(ck, binary, gpath, name, mode="edges", walks=3000)
     # 3. recorded random histories validated against the contract
     ck.set("exhaustive", True)
     for i, (variant, nops) in enumerate(rec):
